@@ -43,6 +43,14 @@ MEMBERS = [
      ("knob{s}", [("value", "optpos")])),
     ("    def _hidden{s}(self, x: int) -> int:\n        return x\n", None),
     ("    @property\n    def _secret{s}(self) -> int:\n        return 1\n", None),
+    ("    @staticmethod\n    def scale{s}(factor: int, offset: int = 0) -> int:\n        '''Scales.'''\n        return factor * 2 + offset\n",
+     ("scale{s}", [("factor", "pos"), ("offset", "opt")])),
+    ("    def filter{s}_(self, pattern: str = '*') -> str:\n        '''Trailing underscore.'''\n        return pattern\n",
+     ("filter{s}_", [("pattern", "opt")])),
+    ("    def deep__scan{s}(self, level: int) -> int:\n        '''Double underscore inside the name.'''\n        return level\n",
+     ("deep__scan{s}", [("level", "pos")])),
+    ("    def start{s}_(self, count: int = 1) -> int:\n        '''Differs from an inherited name only by a trailing underscore.'''\n        return count\n",
+     ("start{s}_", [("count", "opt")])),
     ("    def ratio_of{s}(self, part: float, whole: float = 1.0) -> float:\n        '''Ratio.'''\n        return part / whole\n",
      ("ratio_of{s}", [("part", "pos"), ("whole", "opt")])),
 ]
@@ -112,7 +120,7 @@ class C16Engine(Engine):
             "subclass, or width < 40 or > 200. Distinct = case hash.")
     assumptions = ["the session is driven in-process through a real asyncio.StreamReader and a recording writer (vt/ctl/harness.py)",
                    "API table written from the documentation, independent of inspect.getmembers"]
-    bounds = {"widths": "1..1000", "generated members": "<=4 of 9 templates", "subclass depth": "<=2"}
+    bounds = {"widths": "1..1000", "generated members": "<=4 of 13 templates", "subclass depth": "<=2"}
 
     def strategies(self, tier: str):
         return [("default", st.binary(min_size=NB, max_size=NB).map(decode), 400 if tier == "quick" else 20000)]
